@@ -94,8 +94,12 @@ def execute(setname, sets, history, nmix, T0=10000.0, P0=101325.0, ctl=None):
         m = mixes[w]
         if kind == "T":
             m.T = arg
+            if m.T != arg and bad is None:
+                bad = {"step": k, "what": "assigning T did not change the visible temperature to the assigned value", "assigned": arg, "visible": m.T}
         elif kind == "P":
             m.P = arg
+            if m.P != arg and bad is None:
+                bad = {"step": k, "what": "assigning P did not change the visible pressure to the assigned value", "assigned": arg, "visible": m.P}
         elif kind == "X":
             m.x0 = x0s[arg]
         else:
